@@ -85,7 +85,7 @@ class SimultaneousScheduler(Scheduler):
 
             # Check if the event is of type DelayedEvent. If yes, we do not get a reply here and the event will be stored in self.delayed_events
 
-            event = self.handle_delayed_event(model.events.pop(), dt=model.dt)
+            event = self.handle_delayed_event(model.events.pop(0), dt=model.dt)
 
             if event:
                 # agent ids are not positions in model.agents once agents have been deleted or reconfigured
